@@ -106,6 +106,8 @@ type veEnv struct {
 	failHeadN         int
 	slowOpenAfterFail time.Duration
 	failedSeen        map[string]bool
+	freezeOnTxOf      string
+	asideSeq          int
 }
 
 func veMD5(b []byte) string { return fmt.Sprintf("%x", md5.Sum(b)) }
@@ -123,6 +125,12 @@ func (e *veEnv) ev(kind, name, info string) {
 		// the crash point is given relative to the first answer that came back
 		e.freezeAt = n + e.freezeAfterTx - 1
 		e.freezeAfterTx = 0
+	}
+	if e.freezeOnTxOf != "" && kind == "tx" && strings.Contains(" "+info, " "+e.freezeOnTxOf+"[") {
+		// the sender dies when it is about to send the first request for this file: the new
+		// version is scanned, hashed and in the persisted cache, nothing of it is on the wire
+		e.freezeAt = n
+		e.freezeOnTxOf = ""
 	}
 	if e.freezeAt > 0 && n == e.freezeAt {
 		e.frozen = true
@@ -212,10 +220,25 @@ func (s *veStore) GetOpener() sts.Open {
 	}
 }
 
+type veAside struct {
+	sts.File
+	path string
+}
+
+func (a *veAside) GetPath() string { return a.path }
+
 func (s *veStore) Remove(f sts.File) error {
 	// capture atomically WHAT is being deleted: move it aside first (that is the
-	// instant of the deletion), then look at it
-	aside := f.GetPath() + ".verif-deleted"
+	// instant of the deletion), then look at it. The real Remove then acts on the
+	// moved file only: whatever appears under the name AFTER that instant (a new
+	// version written by the scenario) is not this deletion's business - the
+	// wrapper must not stretch the microseconds between the sender's look at the
+	// file and its removal into the milliseconds this bookkeeping takes.
+	s.e.mu.Lock()
+	s.e.asideSeq++
+	aside := filepath.Join(s.e.root, "aside", fmt.Sprintf("%d-%s", s.e.asideSeq, strings.ReplaceAll(f.GetName(), "/", "_")))
+	s.e.mu.Unlock()
+	os.MkdirAll(filepath.Dir(aside), 0o755) // (outside the watched tree: a scan must not find it)
 	rerr := os.Rename(f.GetPath(), aside)
 	h := ""
 	held := false
@@ -223,7 +246,6 @@ func (s *veStore) Remove(f sts.File) error {
 		b, _ := os.ReadFile(aside)
 		h = veMD5(b)
 		held = s.e.receiverHolds(f.GetName(), h)
-		os.Remove(aside)
 	}
 	ver := ""
 	if s.e.versionOf != nil {
@@ -242,7 +264,7 @@ func (s *veStore) Remove(f sts.File) error {
 		s.e.badRemove++
 	}
 	s.e.mu.Unlock()
-	return s.Local.Remove(f)
+	return s.Local.Remove(&veAside{File: f, path: aside})
 }
 
 // ---- sent log ---------------------------------------------------------------------
@@ -451,7 +473,17 @@ func (e *veEnv) validate(sent []sts.Pollable) ([]sts.Polled, error) {
 	var out []sts.Polled
 	var desc []string
 	for _, f := range sent {
-		code := e.st.GetFileStatus(f.GetName(), time.Unix(f.GetStarted().Unix(), 0))
+		// as http.Client.Validate / Server.routeValidate do it: name, start time (whole seconds) and,
+		// when the gate keeper can tell versions apart, the hash of the version that was sent
+		var gk sts.GateKeeper = e.st
+		code := -1
+		if vgk, ok := gk.(interface {
+			GetVersionStatus(relPath, hash string, sent time.Time) int
+		}); ok && f.GetHash() != "" {
+			code = vgk.GetVersionStatus(f.GetName(), f.GetHash(), time.Unix(f.GetStarted().Unix(), 0))
+		} else {
+			code = gk.GetFileStatus(f.GetName(), time.Unix(f.GetStarted().Unix(), 0))
+		}
 		if pf == "none" {
 			code = sts.ConfirmNone
 		}
@@ -494,6 +526,7 @@ type veFileSpec struct {
 	seedb    byte
 	age      time.Duration
 	eligible bool
+	link     bool // the source entry is a symbolic link to a file kept elsewhere
 }
 
 type veScenario struct {
@@ -512,6 +545,7 @@ type veScenario struct {
 	reuse             bool   // after the first delivery a file is created anew under a used name
 	reuseFault        string // ... and the first request(s) carrying the new version are lost without a part count (data recovery)
 	reuseFaultN       int
+	reuseCrash        bool          // ... and the sender dies when it is about to send the new version (then restarts)
 	mutate            string        // name of a file rewritten while queued
 	stopAfterTx       int           // stop at the k-th interface event counted from the first answer to a data request
 	stopAtPoll        bool          // stop while the first poll answer is on its way back
@@ -628,7 +662,14 @@ func veRun(tmp string, sc veScenario) string {
 			t := time.Now().Add(-f.age)
 			os.Chtimes(tmpf, t, t)
 		}
-		os.Rename(tmpf, p) // files appear atomically
+		if f.link && v == 0 {
+			// the content lives outside the watched tree; the entry in it is a link
+			target := filepath.Join(e.root, "linked-"+strings.ReplaceAll(f.name, "/", "_"))
+			os.Rename(tmpf, target)
+			os.Symlink(target, p)
+		} else {
+			os.Rename(tmpf, p) // files appear atomically
+		}
 		version[f.name] = v
 	}
 	for _, f := range sc.files {
@@ -775,6 +816,11 @@ func veRun(tmp string, sc veScenario) string {
 							}
 						} else if c := b0.Conf.Cache.Get(f.name); c == nil || !c.IsDone() {
 							continue
+						}
+						if sc.reuseCrash {
+							e.mu.Lock()
+							e.freezeOnTxOf = f.name
+							e.mu.Unlock()
 						}
 						if sc.reuseFault != "" {
 							// the request that carries the new version is lost on the way, without a part
@@ -1078,10 +1124,16 @@ func veRun(tmp string, sc veScenario) string {
 	}
 	sort.Strings(keys)
 	var sb strings.Builder
-	fmt.Fprintf(&sb, "E %s %s files=%d del=%v threads=%d payload=%d chunk=%d faults=%d pollfaults=%d stop=%s stopat=%d crashat=%d reuse=%v reusefault=%s mutate=%s =",
-		sc.id, sc.profile, len(sc.files), sc.del, sc.threads, sc.payload, sc.chunk, len(sc.faults), len(sc.pollFault),
+	nlinks := 0
+	for _, f := range sc.files {
+		if f.link {
+			nlinks++
+		}
+	}
+	fmt.Fprintf(&sb, "E %s %s files=%d links=%d del=%v threads=%d payload=%d chunk=%d faults=%d pollfaults=%d stop=%s stopat=%d crashat=%d reuse=%v reusefault=%s reusecrash=%v mutate=%s =",
+		sc.id, sc.profile, len(sc.files), nlinks, sc.del, sc.threads, sc.payload, sc.chunk, len(sc.faults), len(sc.pollFault),
 		map[bool]string{true: "-", false: sc.stopKind}[sc.stopKind == ""], sc.stopAt, sc.crashAt, sc.reuse,
-		map[bool]string{true: "-", false: sc.reuseFault}[sc.reuseFault == ""],
+		map[bool]string{true: "-", false: sc.reuseFault}[sc.reuseFault == ""], sc.reuseCrash,
 		map[bool]string{true: "-", false: sc.mutate}[sc.mutate == ""])
 	for _, k := range keys {
 		fmt.Fprintf(&sb, " %s=%s", k, facts[k])
@@ -1117,6 +1169,13 @@ func veGen(r *gen.Rand, id string, profile string) veScenario {
 		}
 		used[n] = true
 		sc.files = append(sc.files, veFileSpec{name: n, size: 1 + r.Intn(150), seedb: byte(1 + r.Intn(200)), age: time.Duration(2+r.Intn(50)) * time.Second, eligible: true})
+	}
+	if profile == "plain" || profile == "crash" || profile == "faults" || profile == "stop" {
+		for i := range sc.files {
+			if r.Chance(1, 4) {
+				sc.files[i].link = true
+			}
+		}
 	}
 	kinds := []string{"fail", "cutbefore", "cutafter", "lost", "unavail", "corrupt"}
 	switch profile {
@@ -1220,8 +1279,11 @@ func veGen(r *gen.Rand, id string, profile string) veScenario {
 	case "reuse":
 		sc.reuse = true
 		sc.del = r.Chance(2, 3)
-		if r.Chance(1, 2) {
-			sc.reuseFault = []string{"cutbefore", "unavail", "lost", "cutafter"}[r.Intn(4)]
+		if r.Chance(1, 4) {
+			sc.reuseCrash = true
+			sc.crashAt = 100000 // armed
+		} else if r.Chance(1, 2) {
+			sc.reuseFault = []string{"cutbefore", "unavail", "lost", "cutafter", "swallow"}[r.Intn(5)]
 			sc.reuseFaultN = 1 + r.Intn(2)
 		}
 	case "mutate", "vanish":
